@@ -682,6 +682,25 @@ func checkRecoveryStartsAtCurrentBirthdayBlock(c *Ctx, rule string) {
 				grow(e, depth+1)
 			}
 		}
+		// the stamp handed back by a private part of the startup path: what that part can return
+		var call *ssa.Call
+		idx := 0
+		switch x := cell.(type) {
+		case *ssa.Extract:
+			call, _ = x.Tuple.(*ssa.Call)
+			idx = x.Index
+		case *ssa.Call:
+			call = x
+		}
+		if call != nil {
+			if g := call.Call.StaticCallee(); g != nil && len(g.Blocks) > 0 && p.inRegion(syn, g) {
+				for _, b := range g.Blocks {
+					if r, ok := b.Instrs[len(b.Instrs)-1].(*ssa.Return); ok && idx < len(r.Results) {
+						grow(r.Results[idx], depth+1)
+					}
+				}
+			}
+		}
 	}
 	grow(arg, 0)
 	n := 0
